@@ -34,6 +34,7 @@ REGISTRY = {
     "C16": ("auverif.props.c16", "run"),
     "C17": ("auverif.props.c17", "run"),
     "C18": ("auverif.props.c18", "run"),
+    "C20": ("auverif.props.c20", "run"),
 }
 
 
